@@ -715,6 +715,11 @@ def fade_continuity(F, R, rule='B.SM.fade-continuity'):
                 break
             if not (l is not None and 1 <= l <= b.arg_count):
                 bad.append('%s hands Parameter::set a tween it built itself (%s), not the caller\'s' % (b.path, describe(b, t['args'][2], depth=3, at=bb)[:60]))
+    for b in F.bodies:
+        if b.krate == 'kira' and b.path.startswith(PSM + '::'):
+            for bb, si, s2 in b.stmts():
+                if s2['k'] == 'assign' and s2['rv']['k'] == 'agg' and s2['rv'].get('adt') == 'tween::Tween':
+                    bad.append('%s builds a Tween of its own (the fades run with the tweens the caller gave, start time included)' % b.path)
     R.check(not bad and len(sets) >= 3, rule, 'volume_fade', '; '.join(bad) or 'pause / resume / stop do not retarget the fade with Parameter::set (found %d)' % len(sets),
             detail={'methods': n, 'set_calls': len(sets)})
 
